@@ -175,9 +175,11 @@ type client struct {
 	sentM sync.Mutex // protects sent
 	sent  map[uint32]hrpc.Call
 
-	// inFlight is number of rpcs sent to regionserver awaiting response
+	// inFlight is number of rpcs sent to regionserver awaiting response.
+	// It can be negative for a moment: a response can be received before the
+	// sender of its request gets to increment inFlight.
 	inFlightM sync.Mutex // protects inFlight and SetReadDeadline
-	inFlight  uint32
+	inFlight  int32
 
 	id uint32
 
@@ -255,8 +257,18 @@ func (c *client) String() string {
 func (c *client) inFlightUp() error {
 	c.inFlightM.Lock()
 	c.inFlight++
-	// we expect that at least the last request can be completed within readTimeout
-	if err := c.conn.SetReadDeadline(time.Now().Add(c.readTimeout)); err != nil {
+	var deadline time.Time
+	if c.inFlight > 0 {
+		// we expect that at least the last request can be completed within readTimeout
+		deadline = time.Now().Add(c.readTimeout)
+	} else if c.inFlight < 0 {
+		// responses to this and other requests have already been received
+		c.inFlightM.Unlock()
+		return nil
+	}
+	// otherwise the response to this request has already been received and
+	// we are not waiting for any other, make sure there's no read timeout
+	if err := c.conn.SetReadDeadline(deadline); err != nil {
 		c.inFlightM.Unlock()
 		return err
 	}
@@ -811,7 +823,7 @@ func (c *client) MarshalJSON() ([]byte, error) {
 		ConnectionRemoteAddress: remoteAddr,
 		RegionServerAddress:     c.addr,
 		ClientType:              c.ctype,
-		InFlight:                inFlight,
+		InFlight:                uint32(inFlight),
 		Id:                      atomic.LoadUint32(&c.id),
 		Done_status:             done_status,
 	}
